@@ -100,6 +100,42 @@ pub fn expect_var(slots: &[StorageSlot], v: &Var) -> Result<(), (String, String)
                 _ => Err(("plain word: entry at offset 0 is missing or of a constructed kind".into(), describe(&here))),
             }
         }
+        Kind::MappingStruct { key_addr, fields, .. } => {
+            let Some(s) = here.iter().find(|s| s.offset == 0) else {
+                return Err(("mapping of structs: no entry at offset 0".into(), describe(&here)));
+            };
+            let AbiType::Mapping { key_type, value_type } = &s.typ else {
+                return Err(("mapping of structs: the entry is not a mapping".into(), format!("{:?}", s.typ)));
+            };
+            if *key_addr && !is_20_bytes(key_type) {
+                return Err((
+                    "mapping: a key masked to 160 bits is not reported as a 20-byte quantity".into(),
+                    format!("{:?}", s.typ),
+                ));
+            }
+            let elements: Vec<(usize, Option<usize>)> = match &**value_type {
+                AbiType::Struct { elements } => elements.iter().map(|e| (e.offset, width_of(&e.typ))).collect(),
+                other => vec![(0, width_of(other))],
+            };
+            for (o, w) in fields {
+                match elements.iter().find(|(eo, _)| eo == o) {
+                    Some((_, ew)) if *ew == Some(*w) => {}
+                    Some((_, ew)) => {
+                        return Err((
+                            "mapping of structs: a field of the value is reported with a different width".into(),
+                            format!("field ({o},{w}) reported with width {ew:?}; value type {value_type:?}"),
+                        ))
+                    }
+                    None => {
+                        return Err((
+                            "mapping of structs: a field of the value has no element at its bit offset".into(),
+                            format!("field ({o},{w}); value type {value_type:?}"),
+                        ))
+                    }
+                }
+            }
+            Ok(())
+        }
         Kind::Scaled { .. } => {
             // one value fills the word: nothing may be reported at a bit offset the code never uses
             match here.iter().find(|s| s.offset != 0) {
@@ -180,6 +216,7 @@ fn kind_name(k: &Kind) -> &'static str {
     match k {
         Kind::Plain => "plain",
         Kind::Scaled { .. } => "scaled",
+        Kind::MappingStruct { .. } => "mapping-of-structs",
         Kind::Addr => "address-masked",
         Kind::Mapping { .. } => "mapping",
         Kind::DynArray { .. } => "dynamic-array",
@@ -194,6 +231,10 @@ pub fn label_truth(t: &Truth, acc: &mut Acc) -> bool {
         match &v.kind {
             Kind::Plain => acc.label("kind:plain"),
             Kind::Scaled { .. } => acc.label("kind:scaled"),
+            Kind::MappingStruct { fields, .. } => {
+                acc.label("kind:mapping-of-structs");
+                nontrivial |= fields.len() >= 3;
+            }
             Kind::Addr => acc.label("kind:addr"),
             Kind::Mapping { keys, const_key, .. } => {
                 acc.label_if(const_key.is_some(), "kind:mapping-constant-key");
